@@ -3,30 +3,35 @@ import P2sh.Driver.Util
 namespace P2sh.Driver.Enc
 open P2sh.Code P2sh.Driver
 
+/-- spec (C14), independent of the model of `make`: for an opcode with declared widths `ws`,
+when every operand fits its width, decoding what was encoded yields the operands -/
+def spec (op : Nat) (operands : List Nat) : String :=
+  match widthsOf op with
+  | none => "any"
+  | some ws =>
+    if operands.length == ws.length && (operands.zip ws).all (fun (o, w) => o < 256 ^ w)
+    then s!"hasall op={op} dec={natList operands} off={ws.sum} lines={1 + ws.sum}" else "any"
+
 /-- op `enc <opcode byte> <operand>*` — mirrors harness/src/ops/enc.rs on the model -/
 def run (args : List String) : String :=
   match args.mapM String.toNat? with
   | none | some [] => "bad-op"
   | some (b :: operands) =>
     let op := opOfByte (b % 256)
+    let sp := spec op operands
     match make op operands with
-    | .panic => result "PANIC" "any"
+    | .panic => result "PANIC" sp
     | .ok code =>
       let base := s!"op={op} code={natList code} lines={makeLinesLen op}"
       match code with
-      | [] => result base "any"
+      | [] => result base sp
       | c :: rest =>
-        let (model, ws) := match widthsOf (opOfByte c) with
-          | none => (base ++ " dec=undefined", ([] : List Nat))
+        let model := match widthsOf (opOfByte c) with
+          | none => base ++ " dec=undefined"
           | some ws =>
             match readOperands ws rest with
-            | .ok os off => (base ++ s!" dec={natList os} off={off}", ws)
-            | .panic => ("PANIC", ws)
-        -- spec (C14): when every operand fits its declared width the decoded operands are the inputs
-        let fitsAll := operands.length == ws.length &&
-          (operands.zip ws).all (fun (o, w) => o < 256 ^ w)
-        let spec := if (widthsOf op).isSome && fitsAll
-          then s!"has dec={natList operands}" else "any"
-        result model spec
+            | .ok os off => base ++ s!" dec={natList os} off={off}"
+            | .panic => "PANIC"
+        result model sp
 
 end P2sh.Driver.Enc
